@@ -128,8 +128,37 @@ pub fn run(seed: u64, count: usize, _thorough: bool, out: &mut Out, tmp: &str) {
     let dir = std::path::Path::new(tmp).join("c15");
     let _ = std::fs::remove_dir_all(&dir);
     std::fs::create_dir_all(&dir).expect("tmp dir");
-    let pdb_recs = pdbgen::records(&mut rng, &Cfg { metadata: true, wraps: false, blank_chains: false });
+    // a text on which every option makes a difference: several models, a hydrogen first, metadata
+    let mut pdb_recs = pdbgen::records(&mut rng, &Cfg { metadata: true, wraps: false, blank_chains: false });
+    for _ in 0..40 {
+        if pdb_recs.iter().filter(|r| matches!(r, pdbgen::Rec::Model(_))).count() >= 2 {
+            break;
+        }
+        pdb_recs = pdbgen::records(&mut rng, &Cfg { metadata: true, wraps: false, blank_chains: false });
+    }
+    {
+        let mut first = true;
+        for r in pdb_recs.iter_mut() {
+            match r {
+                pdbgen::Rec::Model(_) => first = true,
+                pdbgen::Rec::Atom(a) if first => {
+                    a.element = "H".into();
+                    a.name = "H".into();
+                    first = false;
+                }
+                _ => {}
+            }
+        }
+    }
     let pdb_text = pdbgen::text(&mut rng, &pdb_recs);
+    let with_opts = |opts: usize| {
+        ReadOptions::default()
+            .set_level(StrictnessLevel::Loose)
+            .set_discard_hydrogens(opts & 1 != 0)
+            .set_only_first_model(opts & 2 != 0)
+            .set_only_atomic_coords(opts & 4 != 0)
+            .clone()
+    };
     let cif_doc = cifgen::document(&mut rng);
     let cif_text = cifgen::render(&mut rng, &cif_doc, Spelling::BareOnly, false);
     let contents: Vec<(&str, bool, Format, Vec<u8>, Vec<u8>)> = vec![
@@ -138,44 +167,56 @@ pub fn run(seed: u64, count: usize, _thorough: bool, out: &mut Out, tmp: &str) {
         ("pdb", true, Format::Pdb, gz(pdb_text.as_bytes()), pdb_text.as_bytes().to_vec()),
         ("cif", true, Format::Mmcif, gz(cif_text.as_bytes()), cif_text.as_bytes().to_vec()),
     ];
-    let direct: Vec<Option<Sx>> = contents
-        .iter()
-        .map(|(_, _, f, _, raw)| ReadOptions::default().set_format(*f).set_level(StrictnessLevel::Loose).read_raw(std::io::BufReader::new(&raw[..])).ok().map(|(p, _)| file(&p)))
+    // the direct reading of the bytes under each of the eight option sets
+    let direct_all: Vec<Vec<Option<Sx>>> = (0..8usize)
+        .map(|opts| {
+            contents
+                .iter()
+                .map(|(_, _, f, _, raw)| with_opts(opts).set_format(*f).read_raw(std::io::BufReader::new(&raw[..])).ok().map(|(p, _)| file(&p)))
+                .collect()
+        })
         .collect();
-    out.count(&format!("open:direct-reads-ok:{}", direct.iter().filter(|d| d.is_some()).count()));
-    for name in NAMES {
+    out.count(&format!("open:direct-reads-ok:{}", direct_all[0].iter().filter(|d| d.is_some()).count()));
+    out.count(&format!("open:option-sets-that-change-the-pdb-result:{}", (1..8).filter(|o| direct_all[*o][0] != direct_all[0][0]).count()));
+    out.count(&format!("open:option-sets-that-change-the-cif-result:{}", (1..8).filter(|o| direct_all[*o][1] != direct_all[0][1]).count()));
+    for (ni, name) in NAMES.iter().enumerate() {
+        // the same options for the read by path and the direct read, all eight option sets
+        let _ = ni;
         let path = dir.join(name);
         if let Some(parent) = path.parent() {
             let _ = std::fs::create_dir_all(parent);
         }
         let path_s = path.to_string_lossy().to_string();
-        // which (format, compression) makes read(path) give the result of reading the bytes directly?
-        let mut matches: Vec<Sx> = Vec::new();
-        let mut panicked = false;
-        for (k, (fname, zipped, _, bytes, _)) in contents.iter().enumerate() {
-            std::fs::write(&path, bytes).expect("write test file");
-            let r = crate::guarded(|| ReadOptions::default().set_level(StrictnessLevel::Loose).read(&path_s));
-            match r {
-                None => panicked = true,
-                Some(Ok((p, _))) => {
-                    if Some(file(&p)) == direct[k] {
-                        matches.push(l(vec![y(fname), b(*zipped)]));
+        for opts in 0..8usize {
+            let direct = &direct_all[opts];
+            // which (format, compression) makes read(path) give the result of reading the bytes directly?
+            let mut matches: Vec<Sx> = Vec::new();
+            let mut panicked = false;
+            for (k, (fname, zipped, _, bytes, _)) in contents.iter().enumerate() {
+                std::fs::write(&path, bytes).expect("write test file");
+                let r = crate::guarded(|| with_opts(opts).read(&path_s));
+                match r {
+                    None => panicked = true,
+                    Some(Ok((p, _))) => {
+                        if Some(file(&p)) == direct[k] {
+                            matches.push(l(vec![y(fname), b(*zipped)]));
+                        }
                     }
+                    Some(Err(_)) => {}
                 }
-                Some(Err(_)) => {}
             }
+            let _ = std::fs::remove_file(&path);
+            let obs = if panicked {
+                y("panic")
+            } else if matches.len() == 1 {
+                matches.remove(0)
+            } else if matches.is_empty() {
+                y("none")
+            } else {
+                y("ambiguous")
+            };
+            out.case("C15", call("guess", vec![s(name)]), obs, "prop:open-by-name", true);
         }
-        let _ = std::fs::remove_file(&path);
-        let obs = if panicked {
-            y("panic")
-        } else if matches.len() == 1 {
-            matches.remove(0)
-        } else if matches.is_empty() {
-            y("none")
-        } else {
-            y("ambiguous")
-        };
-        out.case("C15", call("guess", vec![s(name)]), obs, "prop:open-by-name", true);
         // a missing file is an error, not a panic
         let r = crate::guarded(|| ReadOptions::default().read(&path_s));
         out.case("C15", call("missing", vec![s(name)]), y(match r { None => "panic", Some(Ok(_)) => "ok", Some(Err(_)) => "error" }), "prop:missing-file", true);
